@@ -196,7 +196,7 @@ mod scaled {
 
     /// Run a history on the real reader; one observation row per op:
     /// [status, value, inner_pos, chunk_no, cache_pos, cache_len, bytes...]
-    pub fn run_ops_enc(r: &mut EncR, ops: &[Vec<u64>]) -> Vec<Vec<u64>> {
+    pub fn run_ops_enc<R: std::io::Read + std::io::Seek + 'static>(r: &mut EncryptionLayerReader<'static, R>, ops: &[Vec<u64>]) -> Vec<Vec<u64>> {
         let mut rows = Vec::new();
         for op in ops {
             let row = catch(|| {
@@ -292,6 +292,35 @@ mod scaled {
                     match len % ch { 0 => "0".to_string(), r if r < 16 => "<tag".to_string(), r if r == ch - 1 => "chunk-1".into(), _ => "mid".into() },
                     len / ch
                 );
+                // the same history over a source that returns fewer bytes than asked on every read (any conforming
+                // reader may): same rows, state columns included (a chunk is loaded whole whatever the source's cuts)
+                if rep == 0 && len % 3 == 1 {
+                    let sched: Vec<usize> = (0..5).map(|_| *rng.pick(&[1usize, 2, 7, 13, 23, 24, 25, 64, 87])).collect();
+                    let thr = (|| -> Result<Vec<Vec<u64>>, String> {
+                        let src = crate::util::ThrottledReader::new(Cursor::new(wire.clone()), sched.clone());
+                        let mut r = EncryptionLayerReader::new(Box::new(RawLayerReader::new(src)), &EncryptionReaderConfig::verif_new(KEY, NONCE, false)).map_err(|e| format!("{e:?}"))?;
+                        r.initialize().map_err(|e| format!("{e:?}"))?;
+                        Ok(run_ops_enc(&mut r, &ops))
+                    })();
+                    let (trows, toracle) = match thr {
+                        Ok(rows) => {
+                            let o = oracle_cursor(&plain, &ops, &rows);
+                            (rows, o)
+                        }
+                        Err(e) => (vec![], Err(format!("open over a short-read source failed: {e}"))),
+                    };
+                    out.case(&Case {
+                        id: format!("c11-enc-thr-L{len}"),
+                        model_fn: "c11_enc",
+                        args: vec![jbytes(&plain), json!(ops)],
+                        imp: json!(trows),
+                        oracle_ok: toracle.is_ok(),
+                        oracle_msg: toracle.err().unwrap_or_default(),
+                        class: format!("short-read source; {class}"),
+                        nontrivial: len > 0,
+                        meta: json!({"len": len, "sched": sched}),
+                    });
+                }
                 out.case(&Case {
                     id: format!("c11-enc-L{len}-r{rep}"),
                     model_fn: "c11_enc",
